@@ -406,6 +406,58 @@ def c18_compat(case):
             return bad("C18:not-conservative", "no legacy symbol in %r, yet compatible=True -> %s and plain -> %s" % (x, str(r1)[:100], str(r3)[:100]))
     return ok()
 
+
+# ---------------------------------------------------------------------------
+# C07
+
+
+def c07_alphabet(case):
+    from . import docs
+    t = case["table"]
+    if not set_table(t):
+        return ok("table rejected")
+    try:
+        tab = sf.get_semantic_constraints()
+        alpha = set(sf.get_semantic_robust_alphabet())
+        want = set(docs.DOC_INDEX) | {"[%sBranch%d]" % (b, i) for b in ("", "=", "#") for i in (1, 2, 3)} | \
+            {"[%sRing%d]" % (b, i) for b in ("", "=") for i in (1, 2, 3)}
+        for k, v in tab.items():
+            if k == "?":
+                continue
+            for b, o in (("", 1), ("=", 2), ("#", 3)):
+                if o <= v:
+                    want.add("[%s%s]" % (b, k))
+        if alpha != want:
+            return bad("C07:alphabet-content", "table %s: alphabet has extra %s, lacks %s" % (_short(t), sorted(alpha - want)[:5], sorted(want - alpha)[:5]))
+        for s in sorted(alpha):
+            r = _dec(s)
+            if r[0] != "ok":
+                return bad("C07:symbol-rejected", "table %s is accepted and its robust alphabet contains %r, which decoder rejects (%s)" % (_short(t), s, r[0]))
+        return ok()
+    finally:
+        reset_table()
+
+
+def c07_string(case):
+    if not set_table(case["table"]):
+        return ok("table rejected")
+    try:
+        tab = sf.get_semantic_constraints()
+        alpha = sf.get_semantic_robust_alphabet()
+        toks = _tok(case["selfies"])
+        if any(t not in alpha for t in toks):
+            return ok("not over the alphabet")
+        r = _dec(case["selfies"])
+        if r[0] != "ok":
+            return bad("C07:string-rejected", "decoder(%r) under %s -> %s" % (case["selfies"], _short(case["table"]), r[0]))
+        f = smiles_faults(r[1], tab, "C07")
+        if f is not None:
+            f["detail"] = "decoder(%r) under %s: %s" % (case["selfies"], _short(case["table"]), f["detail"])
+            return f
+        return ok()
+    finally:
+        reset_table()
+
 # ---------------------------------------------------------------------------
 
 KINDS = {
@@ -417,6 +469,8 @@ KINDS = {
     "nop_invisible": c13_nop,
     "nop_padding": c13_padding,
     "compat": c18_compat,
+    "alphabet": c07_alphabet,
+    "robust_string": c07_string,
     "state_fn": lemma_state_fn,
     "ring_step": lemma_ring_step,
 }
